@@ -17,7 +17,7 @@ BORROW = [
     "pv.corpora.c18",
 ]  # fmt: skip
 
-CORE_PREFIXES = ("c02.t.", "c04.t.", "c05.pos.", "c05.arr_", "c06.left.", "c07.distinct.", "c09.", "c17.", "c18.eq")
+CORE_PREFIXES = ("c02.t.", "c03.", "c04.t.", "c04.g.", "c05.pos.", "c05.arr", "c05.grouping", "c05.typed", "c06.", "c07.", "c09.", "c16.refs", "c16.self_join", "c17.", "c18.eq")
 
 
 def templates(cfg):
@@ -35,4 +35,4 @@ def templates(cfg):
         return core + rotated(rest, 1500, cfg.seed)
     core = [t for t in allt if t.name[4:].startswith(CORE_PREFIXES)]
     rest = [t for t in allt if t not in core]
-    return core[:120] + rotated(rest, 140, cfg.seed)
+    return core + rotated(rest, 140, cfg.seed)
